@@ -573,6 +573,10 @@ func vfXDecode(body []byte) (*vfPkt, error) {
 			return nil, err
 		}
 		out.ID = rp.RequestID
+		if rp.Request == nil || byte(rp.Request.Type()) != typ {
+			// the generic request decoder must hand back the packet kind the type byte names (seed F13)
+			return nil, fmt.Errorf("type byte %d decoded into %T", typ, rp.Request)
+		}
 		switch m := rp.Request.(type) {
 		case *sshfx.OpenPacket:
 			out.Path, out.Pflags, out.Attrs = bs(m.Filename), m.PFlags, vfAttrsOfX(&m.Attrs)
